@@ -288,6 +288,9 @@ func (e *Exec) loadLoc(l *Loc) Value {
 }
 
 func (e *Exec) storeLoc(l *Loc, v Value) {
+	if e.spec > 0 && l.id <= e.specStart {
+		e.abortSpec("store to pre-existing memory")
+	}
 	if l.global != nil && e.frozenGlobals {
 		// writes to globals after init are allowed but recorded
 		e.globalWrites++
@@ -325,19 +328,13 @@ func (e *Exec) load(p Pointer) Value {
 	}
 	if p.sym != nil {
 		sp := p.sym
-		var res Value
-		for i := len(sp.elems) - 1; i >= 0; i-- {
-			v := e.loadLoc(sp.elems[i])
-			if res == nil {
-				res = v
-				continue
-			}
-			c := e.ts.Eq(sp.idx, e.ts.BV(64, uint64(i)))
-			m, ok := e.merge(c, v, res)
-			if !ok {
-				e.unsupported("symbolic-index load of non-mergeable element")
-			}
-			res = m
+		vals := make([]Value, len(sp.elems))
+		for i, l := range sp.elems {
+			vals[i] = e.loadLoc(l)
+		}
+		res, ok := e.selectTree(vals, sp.idx)
+		if !ok {
+			e.unsupported("symbolic-index load of non-mergeable element")
 		}
 		return res
 	}
@@ -641,4 +638,27 @@ func copyVal(v Value) Value {
 		return r
 	}
 	return v
+}
+
+// selectTree builds vals[idx] as a balanced ite tree over the bits of idx (idx assumed < len(vals)).
+func (e *Exec) selectTree(vals []Value, idx *Term) (Value, bool) {
+	n := len(vals)
+	if n == 1 {
+		return vals[0], true
+	}
+	k := 0
+	for (1 << uint(k)) < n {
+		k++
+	}
+	half := 1 << uint(k-1)
+	lo, ok := e.selectTree(vals[:half], idx)
+	if !ok {
+		return nil, false
+	}
+	hi, ok := e.selectTree(vals[half:], idx)
+	if !ok {
+		return nil, false
+	}
+	bit := e.ts.Eq(e.ts.Extract(idx, k-1, k-1), e.ts.BV(1, 1))
+	return e.merge(bit, hi, lo)
 }
